@@ -13,7 +13,6 @@ import (
 	"pgregory.net/rapid"
 
 	oracletypes "github.com/jackalLabs/canine-chain/v4/x/oracle/types"
-	rnstypes "github.com/jackalLabs/canine-chain/v4/x/rns/types"
 	storagetypes "github.com/jackalLabs/canine-chain/v4/x/storage/types"
 
 	"verifharness/chain"
@@ -385,7 +384,7 @@ func TestC04(t *testing.T) {
 		if rapid.Bool().Draw(rt, "names") {
 			for _, i := range []int{2, 0} {
 				nm := fmt.Sprintf("refer%d.jkl", i)
-				if r := w.f.Exec(rnstypes.NewMsgRegisterName(chain.Acc(i).Bech, nm, 1, "{}", false)); r.OK() {
+				if r := w.f.Exec(newMsgRegisterName(chain.Acc(i).Bech, nm, 1, "{}", false)); r.OK() {
 					w.nameOf[i] = nm
 				}
 			}
